@@ -13,6 +13,7 @@ import (
 	"os"
 	"strings"
 	"testing"
+	"time"
 
 	"github.com/deckhouse/deckhouse/pkg/log"
 
@@ -21,6 +22,7 @@ import (
 	"github.com/flant/shell-operator/pkg/task"
 	"github.com/flant/shell-operator/pkg/task/queue"
 	"github.com/flant/shell-operator/pkg/zzverif/vres"
+	"github.com/flant/shell-operator/pkg/zzverif/vrt"
 )
 
 func init() {
@@ -256,6 +258,186 @@ func TestVerifC07a(t *testing.T) {
 			}
 			if i < 0 || r.Expired() {
 				break
+			}
+		}
+	}
+}
+
+// ---- part b: tasks appended while the combination is in progress (scheduler) ----
+
+type c07bScenario struct {
+	Name    string
+	Initial []string // hook of each initial task (head first)
+	Append  []string // hooks of the tasks the appender adds
+}
+
+func TestVerifC07b(t *testing.T) {
+	r := vres.New("c07b")
+	defer r.Finish()
+	bound := vres.Pick(2, 3)
+	r.Bound("deviation_bound", bound)
+	scs := []c07bScenario{
+		{"AA+A", []string{"A", "A"}, []string{"A"}},
+		{"A+A", []string{"A"}, []string{"A"}},
+		{"AA+AA", []string{"A", "A"}, []string{"A", "A"}},
+		{"AAB+A", []string{"A", "A", "B"}, []string{"A"}},
+		{"AA+BA", []string{"A", "A"}, []string{"B", "A"}},
+		{"AB+A", []string{"A", "B"}, []string{"A"}},
+	}
+	shard, shards := vres.Shard()
+	for _, exported := range []bool{false, true} {
+		for _, sc := range scs {
+			sc, exported := sc, exported
+			type obsT struct {
+				got     []string
+				nilRes  bool
+				remain  [][]string // contexts of tasks left in the queue, in order
+				all     []string
+				headCtx []string
+				panics  string
+			}
+			var obs *obsT
+			body := func(x *vrt.Exec) {
+				obs = &obsT{}
+				tqs := queue.NewTaskQueueSet()
+				tqs.WithContext(context.Background())
+				tqs.NewNamedQueue("q", func(task.Task) queue.TaskResult { return queue.TaskResult{Status: "Success"} })
+				q := tqs.GetByName("q")
+				op := &ShellOperator{logger: log.NewNop(), TaskQueues: tqs}
+				n := 0
+				mk := func(hook string) task.Task {
+					n++
+					lbl := fmt.Sprintf("c%d", n)
+					bt := &task.BaseTask{Id: fmt.Sprintf("t%d", n), Type: task_metadata.HookRun, QueueName: "q", Props: map[string]interface{}{}}
+					bt.WithMetadata(task_metadata.HookMetadata{HookName: hook, BindingContext: []bindingcontext.BindingContext{{Binding: lbl}}})
+					obs.all = append(obs.all, lbl)
+					return bt
+				}
+				var head task.Task
+				vrt.Atomic(func() {
+					for i, h := range sc.Initial {
+						tk := mk(h)
+						if i == 0 {
+							head = tk
+							obs.headCtx = []string{"c1"}
+						}
+						q.AddLast(tk)
+					}
+				})
+				done := 0
+				vrt.GoNamed("appender", func() {
+					for _, h := range sc.Append {
+						q.AddLast(mk(h))
+					}
+					done++
+				})
+				vrt.GoNamed("worker", func() {
+					var res *CombineResult
+					if exported {
+						res = op.CombineBindingContextForHook(q, head, nil)
+					} else {
+						res = op.combineBindingContextForHook(tqs, q, head, nil)
+					}
+					if res == nil {
+						obs.nilRes = true
+					} else {
+						for _, bc := range res.BindingContexts {
+							obs.got = append(obs.got, bc.Binding)
+						}
+					}
+					done++
+				})
+				vrt.WaitFor("both", time.Hour, func() bool { return done == 2 })
+				q.Iterate(func(tk task.Task) {
+					var cs []string
+					if tk != nil {
+						for _, bc := range task_metadata.HookMetadataAccessor(tk).BindingContext {
+							cs = append(cs, bc.Binding)
+						}
+					}
+					obs.remain = append(obs.remain, cs)
+				})
+			}
+			name := fmt.Sprintf("%s/exported=%v", sc.Name, exported)
+			ex := &vrt.Explorer{Opts: vrt.Options{Bound: bound, MaxSteps: 5000}, Shard: shard, Shards: shards, Deadline: r.Deadline()}
+			ex.Check = func(x *vrt.Exec) {
+				key := fmt.Sprintf("%s|%v", name, x.Choices)
+				r.Eval(1)
+				r.Transition(int64(x.Steps))
+				if len(x.Panics) > 0 {
+					r.Violation("C07b panic", key, strings.Join(x.Panics, "\n"), nil)
+					return
+				}
+				if x.End == "deadlock" {
+					r.Violation("C07b deadlock", key, strings.Join(x.Blocked, "; "), nil)
+					return
+				}
+				// every context is either handed to the hook or still in the queue, exactly once
+				count := map[string]int{}
+				delivered := obs.got
+				if obs.nilRes {
+					delivered = obs.headCtx // nothing merged: the head keeps its own context
+				}
+				for _, c := range delivered {
+					count[c]++
+				}
+				for i, cs := range obs.remain {
+					if i == 0 {
+						continue // the head task stays in the queue while it runs
+					}
+					for _, c := range cs {
+						count[c]++
+					}
+				}
+				for _, c := range obs.all {
+					if count[c] == 0 {
+						r.Violation("C07b context-lost", key, fmt.Sprintf("%s: context %s is neither in the combined result %v nor in the queue %v", name, c, delivered, obs.remain), nil)
+						r.Outcome("V:lost", true)
+						return
+					}
+					if count[c] > 1 {
+						r.Violation("C07b context-duplicated", key, fmt.Sprintf("%s: context %s is both delivered and still queued: result %v queue %v", name, c, delivered, obs.remain), nil)
+						r.Outcome("V:dup", true)
+						return
+					}
+				}
+				// delivered contexts keep queue (= creation) order
+				last := 0
+				for _, c := range delivered {
+					var k int
+					fmt.Sscanf(c, "c%d", &k)
+					if k < last {
+						r.Violation("C07b order", key, fmt.Sprintf("%s: combined contexts out of order: %v", name, delivered), nil)
+						return
+					}
+					last = k
+				}
+				oc := fmt.Sprintf("%s|%v|%v", name, delivered, obs.remain)
+				r.State(oc)
+				r.Outcome(oc, x.Devs() > 0)
+				if x.Devs() > 0 {
+					r.Sample(map[string]any{"scenario": name, "choices": fmt.Sprint(x.Choices), "combined": delivered, "queue_after": obs.remain})
+				}
+			}
+			if r.Replaying() {
+				parts := strings.SplitN(r.OnlyCase(), "|", 2)
+				if len(parts) != 2 || parts[0] != name {
+					continue
+				}
+				var choices []int
+				for _, f := range strings.Fields(strings.Trim(parts[1], "[]")) {
+					var v int
+					fmt.Sscan(f, &v)
+					choices = append(choices, v)
+				}
+				opts := ex.Opts
+				ex.Check(vrt.Run(&opts, choices, nil, body))
+				continue
+			}
+			ex.Explore(body)
+			r.Count("executions:"+name, ex.Stats.Executions)
+			if ex.Stats.Capped != "" {
+				r.Cap(name + ":" + ex.Stats.Capped)
 			}
 		}
 	}
